@@ -4,7 +4,8 @@ run against the final quick-tier checks) and the sub-agent's meta.txt, and print
 DESIGN.md section 9.5.  usage: seedmeta.py <log>..."""
 import json, os, re, sys
 
-# seeded changes the checks did NOT catch when first run against them, and what was added
+# seeded changes the checks did not catch when first run against them - or, for the last round,
+# that reading the check showed it could not catch - and what was added
 STRENGTHENED = {
     "C05-store-pseudo-carry": "C05 `far` harness (element indices up to 2^18: every lui/addi carry case of name[i])",
     "C11-icache-uses-dcache-policy": "cache configuration plumbing harness `config` (C09/C11)",
@@ -25,6 +26,12 @@ STRENGTHENED = {
     "C05-string-content-quote-strip": "string declaration whose content starts and ends with a quote character",
     "C17-table-memo-survives-reset": "C17 memory harness continues through reset / reload and the next write",
     "C10-fill-prefers-empty-way": "C10 `fill` harness: which block a fill displaces (CacheSet inside the memory system, 2 and 4 ways)",
+    "C14-fault-message-text-from-wrong-latch": "C14 `message` harness (error-message clause; before, only C15 caught it)",
+    "C19-toy-int-base0": "C19 `numbers` harness: operand / data spellings with leading zeros (before, only C15's regex lemma caught it)",
+    "C12-sb-passes-signed-byte": "C12 `prog` jobs: state relation at the end of cached programs in both modes; single-cycle cached memory compared with the uncached run",
+    "C02-sh-default-bypasses-cache-five-stage": "C02 `prog_cached` jobs: both modes with a data cache",
+    "C04-instruction-memory-not-cleared-on-write": "C04 `reparse` jobs: parser API into a state that already holds a longer program",
+    "C16-svg-directives-object-reused": "C16 `text` harness: assembled sequences with CSR accesses, fresh never-inspected twin after every step",
     "C13-is-done-latched": "C13 reload harness with front-end queries (and no-op step/run) between loads and a run to completion afterwards",
 }
 
